@@ -176,6 +176,7 @@ Proof.
   destruct (starts_with (BS "&#x") rem').
   { destruct (find_byte 59 rem') as [endpos|] eqn:F2; [|apply (INV _ H)].
     unfold find_byte in F2. pose proof (LexerProofs.position_Some _ _ F2) as (LE & _ & _).
+    cbv zeta in H. destruct (starts_with [43] (firstn (endpos - 3) (skipn 3 rem'))); [apply (INV _ H)|].
     destruct (from_str_radix_u 32 16 (firstn (endpos - 3) (skipn 3 rem'))) as [v|] eqn:R; [|apply (INV _ H)].
     destruct (is_char v); [|apply (INV _ H)].
     apply digits_nonempty in R.
@@ -185,6 +186,7 @@ Proof.
   destruct (starts_with (BS "&#") rem').
   { destruct (find_byte 59 rem') as [endpos|] eqn:F2; [|apply (INV _ H)].
     unfold find_byte in F2. pose proof (LexerProofs.position_Some _ _ F2) as (LE & _ & _).
+    cbv zeta in H. destruct (starts_with [43] (firstn (endpos - 2) (skipn 2 rem'))); [apply (INV _ H)|].
     destruct (from_str_radix_u 32 10 (firstn (endpos - 2) (skipn 2 rem'))) as [v|] eqn:R; [|apply (INV _ H)].
     destruct (is_char v); [|apply (INV _ H)].
     apply digits_nonempty in R.
@@ -406,7 +408,10 @@ Proof.
     intros NT. rewrite V2 in NV. rewrite NT in NV. injection NV as <-. rewrite andb_true_r in C.
     apply negb_false_iff in C. apply SNF, C.
   - inv H as spec s3 E3. apply lift_ret_inv in E3 as [CS ->]. destruct spec as [cs|].
-    + inv H as value s4 E4. pose proof (vpres_inv _ _ _ _ (vp_pcd true _ _) E4) as V4. apply pcd_ret in E4.
+    + inv H as mode sm Em. apply lift_ret_inv in Em as [_ ->].
+      destruct ((mode =? MCharacters) && negb match content with [] => true | _ :: _ => false end).
+      { inv H as ux sx Ex. destruct (oe_strict_ret _ _ _ _ _ _ Ex). }
+      inv H as value s4 E4. pose proof (vpres_inv _ _ _ _ (vp_pcd true _ _) E4) as V4. apply pcd_ret in E4.
       inv H as isr s5 E5. apply lift_ret_inv in E5 as [_ ->].
       inv H as u6 s6 E6.
       assert (V6 : p_version s6 = p_version s4).
@@ -429,6 +434,78 @@ Proof.
   destruct (pe_loop_sv _ IH _ _ _ _ _ _ _ _ _ _ _ _ _ _ H ltac:(discriminate)) as (VF & more & -> & CO & SN).
   cbn [app] in *. split; [constructor; assumption|]. split; [reflexivity|]. split; [reflexivity|exact VF].
 Qed.
+
+(* ----- a character data element holds at most one value: both modes ----- *)
+Lemma count_text_app a b : count_text (a ++ b) = (count_text a + count_text b)%nat.
+Proof. unfold count_text. rewrite filter_app, app_length. reflexivity. Qed.
+
+Section Single.
+Variable s : bool.
+Notation PLs := (pe_loop s T tab_el tab_at tab_en check_fn float_parse).
+Notation PEs := (parse_element s T tab_el tab_at tab_en check_fn float_parse).
+
+Definition rec_single (rec : recT) : Prop :=
+  forall n ty a c p ps st sub st', rec n ty a c p ps st = Val (Ret sub st') -> single_valued T sub.
+
+Lemma pe_loop_single (rec : recT) : rec_single rec ->
+  forall k name ty attrs comment pos content elem_idx snf stored path st t st',
+  PLs rec k name ty attrs comment pos content elem_idx snf stored path st = Val (Ret t st') ->
+  (content_mode T ty = Val MCharacters -> (count_text content <= 1)%nat) ->
+  (forall c, In (inl c) content -> single_valued T c) ->
+  single_valued T t.
+Proof.
+  intros HR. induction k as [|k IH]; intros name ty attrs comment pos content elem_idx snf stored path st t st' H CT SC;
+    [discriminate H|].
+  cbn [pe_loop] in H.
+  inv H as u1 s1 E1. inv H as ev s2 E2. destruct ev as [sa|elem_text attr_text|elem_text|text|c|].
+  - inv H as u3 s3 E3. eapply IH; eassumption.
+  - inv H as nm s3 E3. destruct nm as [sub_name|]; [|discriminate H].
+    inv H as r s4 E4. destruct r as [sub_ty idx']. inv H as u5 s5 E5. inv H as u6 s6 E6. inv H as sub_attrs s7 E7.
+    inv H as sub s8 E8. apply HR in E8.
+    assert (CT' : content_mode T ty = Val MCharacters -> (count_text (content ++ [inl sub]) <= 1)%nat).
+    { intros M. rewrite count_text_app. cbn. specialize (CT M). lia. }
+    assert (SC' : forall c, In (inl c) (content ++ [inl sub]) -> single_valued T c).
+    { intros c HIn. apply in_app_or in HIn as [HIn|[HIn|[]]]; [apply SC; exact HIn|]. injection HIn as <-. exact E8. }
+    destruct (sub_name =? name_short_name T); [|eapply IH; eassumption].
+    destruct (first_string sub); [|eapply IH; eassumption].
+    inv H as u9 s9 E9. eapply IH; eassumption.
+  - inv H as nm s3 E3. destruct nm as [n|]; [|discriminate H]. destruct (n =? name); [|discriminate H].
+    inv H as g1 s4 E4. inv H as named s5 E5. inv H as u6 s6 E6. injection H as <- _. constructor; assumption.
+  - inv H as spec s3 E3. destruct spec as [cs|].
+    + inv H as mode sm Em. apply lift_ret_inv in Em as [CM ->].
+      destruct ((mode =? MCharacters) && negb match content with [] => true | _ :: _ => false end) eqn:CK.
+      { inv H as ux sx Ex. eapply IH; eassumption. }
+      inv H as value s4 E4. inv H as isr s5 E5. inv H as u6 s6 E6.
+      eapply IH; [exact H| |].
+      * intros M. rewrite CM in M. injection M as ->. rewrite N.eqb_refl in CK. cbn [andb] in CK.
+        apply negb_false_iff in CK. destruct content; [|discriminate CK]. cbn. lia.
+      * intros c0 HIn. apply in_app_or in HIn as [HIn|[HIn|[]]]; [apply SC; exact HIn|discriminate HIn].
+    + inv H as u4 s4 E4. eapply IH; eassumption.
+  - eapply IH; eassumption.
+  - discriminate H.
+Qed.
+
+Lemma parse_element_single fuel lfuel : rec_single (PEs fuel lfuel).
+Proof.
+  induction fuel as [|f IH]; intros n ty a c p ps st sub st' H; [discriminate H|]. cbn [parse_element] in H.
+  eapply (pe_loop_single _ IH); [exact H|cbn; lia|intros c0 []].
+Qed.
+
+Theorem load_single_valued bs t st :
+  load s T tab_el tab_at tab_en check_fn float_parse bs = Val (Ret t st) -> single_valued T t.
+Proof.
+  unfold load.
+  destruct (version_of_ident "Autosar_4_0_1") as [v401|]; [|destruct (elem T (autosar_element T)); discriminate].
+  destruct (elem T (autosar_element T)) as [e|site|]; try discriminate.
+  unfold parse_arxml. intros H.
+  inv H as ev s1 E1. destruct ev; try discriminate H.
+  inv H as u2 s2 E2. inv H as tok s3 E3. inv H as r s4 E4. destruct r as [stored token].
+  destruct token; try discriminate H.
+  inv H as nm s5 E5. inv H as an s6 E6. destruct nm as [n0|]; [|discriminate H]. destruct (n0 =? an); [|discriminate H].
+  inv H as rt s7 E7. inv H as attributes s8 E8. inv H as u9 s9 E9. inv H as root s10 E10. inv H as u11 s11 E11.
+  injection H as <- _. eapply parse_element_single. exact E10.
+Qed.
+End Single.
 
 (* ----- the whole strict load ----- *)
 Theorem load_strict_valid bs t st :
